@@ -188,3 +188,572 @@ Definition witness_flag_race : list dop :=
 Lemma flag_race_refuted : exists size l,
   let d := druns (dinit size) l in changed d = [] /\ exists v i, dcontent d v i <> content d v i.
 Proof. exists 0%N, witness_flag_race. vm_compute. split; [reflexivity|]. exists 1%N, 1%N. discriminate. Qed.
+
+(** * RemoveSector cut at its internal steps (DataModel.v, [xstep]) *)
+
+(* what Store.RemoveSector does to the slots *)
+Lemma remove_sector_facts r s m :
+  inv s -> remove_sector r s = Ok m ->
+  exists v i, vfind r (vols s) = Some (v, i) /\ inv m /\ same_refs s m /\ known m = known s /\
+    forall w j, slot_at m w j = if (w =? v)%N && (j =? i)%N then Some None else slot_at s w j.
+Proof.
+  intros I R. pose proof (inv_remove_sector r s m I R) as J. unfold remove_sector in R.
+  destruct (mem r (known s)); cbn [negb] in R; [|discriminate].
+  destruct (vfind r (vols s)) as [[v j]|] eqn:F; [|discriminate].
+  destruct (vol_usage v (-1) (set_slot v j None s)) as [s1| |] eqn:U; cbn [bind] in R; try discriminate.
+  destruct (stat_inc (mLost (mets s1)) 1) as [lo| |] eqn:L; cbn [bind] in R; try discriminate.
+  injection R as <-.
+  apply usage_set_slot in U as [vl [G [_ [Hv [Hm [Hk [Ht Hc]]]]]]].
+  destruct (vfind_slot s r v j I F) as [vl' [G' S]]. rewrite G in G'; injection G' as <-.
+  exists v, j. split; [reflexivity|]. split; [exact J|]. split; [split; cbn; assumption|]. split; [exact Hk|].
+  intros w k. pose proof (slot_at_wr s s1 v j None (-1) vl G Hv w k) as SA. rewrite S in SA.
+  unfold slot_at in *. cbn [vols with_mets]. exact SA.
+Qed.
+
+Lemma in_flight_false r (l : list (N * (N * N * N))) t q v i :
+  in_flight r l = false -> alookup t l = Some (q, v, i) -> q <> r.
+Proof. intros H A ->. now rewrite (in_flight_spec r l t v i A) in H. Qed.
+
+(* the metadata commit of RemoveSector r: only r is excused afterwards *)
+Lemma dinvE_remove_md XE d r m :
+  dinvE XE d -> in_flight r (thr d) = false -> remove_sector r (md d) = Ok m ->
+  dinvE (fun q => XE q \/ q = r) (with_md d m).
+Proof.
+  intros I NF R. pose proof (d_inv d I) as I0.
+  destruct (remove_sector_facts r (md d) m I0 R) as [v [i [F [J [SR [K SA]]]]]].
+  apply (vfind_iff (md d) r v i I0) in F.
+  assert (Hsub : forall w j q, slot_at m w j = Some (Some q) -> slot_at (md d) w j = Some (Some q)).
+  { intros w j q H. rewrite SA in H. destruct ((w =? v)%N && (j =? i)%N); [discriminate|exact H]. }
+  assert (Hkeep : forall w j q, slot_at (md d) w j = Some (Some q) -> q <> r -> slot_at m w j = Some (Some q)).
+  { intros w j q H Hq. rewrite SA. destruct ((w =? v)%N && (j =? i)%N) eqn:E0; [|exact H].
+    apply andb_loc in E0 as [-> ->]. congruence. }
+  destruct I as [I1 I2 I3 I4 I4' I5 I6].
+  constructor; cbn [md with_md thr cache].
+  - exact J.
+  - intros q w j H. rewrite K. eapply I2. eapply Hsub; eauto.
+  - exact I3.
+  - intros t q w j H. destruct (I4 t q w j H) as [S C]. split; [|exact C].
+    apply Hkeep; [exact S|]. eapply in_flight_false; eauto.
+  - exact I4'.
+  - intros q c H [w [j [S C]]]. apply (I5 q c H). exists w, j. split; [now apply Hsub|exact C].
+  - intros q H HE. rewrite (refd_same _ _ q SR) in H.
+    assert (Hq : q <> r) by tauto. assert (HX : ~ XE q) by tauto.
+    destruct (I6 q H HX) as [w [j [S [C D]]]]. exists w, j. split; [now apply Hkeep|auto].
+Qed.
+
+(* the zero write: harmless when the slot holds nobody's written data *)
+Lemma dinvE_zero XE d v i :
+  dinvE XE d ->
+  (forall q, slot_at (md d) v i = Some (Some q) -> (exists t, alookup t (thr d) = Some (q, v, i)) /\ q <> 0%N) ->
+  dinvE XE (with_files d (disk d) (kset v i 0%N (pend d))).
+Proof.
+  intros [I1 I2 I3 I4 I4' I5 I6] W.
+  assert (Cn : forall w j, content (with_files d (disk d) (kset v i 0%N (pend d))) w j =
+                           if (w =? v)%N && (j =? i)%N then 0%N else content d w j).
+  { intros w j. unfold content; cbn. destruct ((w =? v)%N && (j =? i)%N); reflexivity. }
+  assert (Hfree : forall w j q, slot_at (md d) w j = Some (Some q) -> content d w j = q -> (w =? v)%N && (j =? i)%N = false).
+  { intros w j q S C. destruct ((w =? v)%N && (j =? i)%N) eqn:E0; [|reflexivity].
+    apply andb_loc in E0 as [-> ->]. destruct (W q S) as [[t A] _]. destruct (I4 t q v i A) as [_ Hc]. congruence. }
+  constructor; cbn [md with_files thr cache]; auto.
+  - intros t q w j H. destruct (I4 t q w j H) as [S C]. split; [exact S|]. rewrite Cn.
+    destruct ((w =? v)%N && (j =? i)%N) eqn:E0; [|exact C].
+    apply andb_loc in E0 as [-> ->]. destruct (W q S) as [_ Hq]. congruence.
+  - intros q c H [w [j [S C]]]. cbn [md with_files] in S. rewrite Cn in C.
+    destruct ((w =? v)%N && (j =? i)%N) eqn:E0.
+    + apply andb_loc in E0 as [-> ->]. destruct (W q S) as [_ Hq]. congruence.
+    + apply (I5 q c H). exists w, j; auto.
+  - intros q H HE. destruct (I6 q H HE) as [w [j [S [C D]]]]. exists w, j. split; [exact S|].
+    rewrite Cn, (Hfree w j q S C). split; [exact C|]. exact D.
+Qed.
+
+(* fsync of the volume and the cache drop *)
+Lemma dinvE_rs_end XE d v r : dinvE XE d -> dinvE XE (with_cache (sync_vol v d) (cdel r (cache d))).
+Proof.
+  intros I. apply dinv_cache; [now apply dinv_sync_vol|].
+  intros q c H Wq. destruct (N.eq_dec q r) as [->|Hq]; [now rewrite cget_cdel_same in H|].
+  rewrite cget_cdel_other in H by exact Hq.
+  apply (d_cache d I q c H). destruct Wq as [w [j [S C]]]. exists w, j. split; [exact S|].
+  now rewrite content_sync_vol in C.
+Qed.
+
+(* VolumeManager.RemoveSector as one step: after it only r is excused *)
+Lemma dinvE_remove_sector XE d r :
+  dinvE XE d -> in_flight r (thr d) = false ->
+  dinvE (fun q => XE q \/ (is_ok (snd (dstep d (DRemoveSector r))) = true /\ q = r)) (fst (dstep d (DRemoveSector r))).
+Proof.
+  intros I NF. cbn [dstep]. unfold dremove_sector.
+  assert (Hw : dinvE (fun q => XE q \/ (false = true /\ q = r)) d).
+  { eapply dinvE_weaken; [|exact I]. intros q Hq. now left. }
+  destruct (locate r (md d)) as [[v i]|] eqn:L; cbn [fst snd is_ok]; [|exact Hw].
+  destruct (remove_sector r (md d)) as [m|e|] eqn:R; cbn [fst snd is_ok]; try exact Hw.
+  apply dinv_touch. pose proof (d_inv d I) as I0.
+  pose proof (dinvE_remove_md XE d r m I NF R) as J.
+  destruct (remove_sector_facts r (md d) m I0 R) as [v0 [i0 [F [_ [_ [_ SA]]]]]].
+  apply locate_slot in L; [|exact I0].
+  apply (vfind_iff (md d) r v0 i0 I0) in F.
+  destruct (slot_injective (md d) v i v0 i0 r I0 L F) as [<- <-].
+  eapply dinvE_weaken with (E := fun q => XE q \/ q = r); [intros q [Hq|Hq]; [now left|right; auto]|].
+  apply (dinvE_rs_end _ (with_files (with_md d m) (disk d) (kset v i 0%N (pend d))) v r).
+  apply (dinvE_zero _ (with_md d m) v i J).
+  intros q S. cbn [md with_md] in S. rewrite SA, !N.eqb_refl in S. discriminate.
+Qed.
+
+(** ** What the other steps can do to the slots and the writer table *)
+Lemma dmigrate_thr fuel : forall v start index calls mig fail d,
+  thr (fst (dmigrate fuel v start index calls mig fail d)) = thr d.
+Proof.
+  induction fuel as [|f IH]; intros v start index calls mig fail d; cbn [dmigrate]; [reflexivity|].
+  repeat brk; cbn [fst]; try reflexivity; rewrite IH; reflexivity.
+Qed.
+
+(* a writer table entry after a step was there before, or belongs to the DReserve just made *)
+Lemma thr_step d o t x :
+  NoDup (map fst (thr d)) -> alookup t (thr (fst (dstep d o))) = Some x ->
+  alookup t (thr d) = Some x \/ (exists r loc, o = DReserve t r loc /\ fst (fst x) = r).
+Proof.
+  intros ND. destruct o; cbn [dstep].
+  - destruct (meta_op o); [|now left]. destruct (step (md d) o). cbn. now left.
+  - unfold dreserve. destruct (alookup t0 (thr d)) eqn:T; [now left|].
+    destruct (reserve r loc (md d)); cbn [fst]; rewrite ?touch_thr; cbn [thr with_thr with_md]; try (now left).
+    cbn [alookup]. destruct (t =? t0)%N eqn:E0; [|now left].
+    apply N.eqb_eq in E0; subst. intros [= <-]. right. exists r, loc. split; reflexivity.
+  - unfold dwrite. destruct (alookup t0 (thr d)) as [[[r v] i]|]; [|now left].
+    destruct (ok && _); cbn [fst thr with_thr with_md with_files with_cache with_changed].
+    + intros H. left. now apply alookup_aremove in H.
+    + destruct (rollback r v i (md d)). cbn. intros H. left. now apply alookup_aremove in H.
+  - unfold dsync. cbn. rewrite fold_sync_thr. now left.
+  - unfold dsync_begin. repeat brk; now left.
+  - unfold dfsync. repeat brk; now left.
+  - unfold dclear. repeat brk; now left.
+  - unfold dsync_end. repeat brk; now left.
+  - now left.
+  - unfold dread. repeat brk; cbn [fst]; rewrite ?touch_thr; now left.
+  - rewrite dmigrate_thr. now left.
+  - unfold dshrink. repeat brk; now left.
+  - unfold dremove. repeat brk; now left.
+  - unfold dremove_sector. repeat brk; cbn [fst]; rewrite ?touch_thr; now left.
+  - unfold dprune, dres. repeat brk; now left.
+  - now left.
+  - cbn. intros H; discriminate H.
+  - destruct (thr d) eqn:T; cbn [fst]; [cbn; intros H; discriminate H|rewrite T; now left].
+Qed.
+
+(* a step that does not need vm.mu (and is not a crash): an occupied slot was occupied by the same
+   sector before, or was just reserved by a writer that has not written yet; no writer leaves *)
+Lemma no_mu_frame d o :
+  inv (md d) -> takes_mu o d = false -> o <> DCrash -> step_ok d o ->
+  (forall w j q, slot_at (md (fst (dstep d o))) w j = Some (Some q) ->
+     slot_at (md d) w j = Some (Some q) \/ exists t, alookup t (thr (fst (dstep d o))) = Some (q, w, j)) /\
+  (forall t x, alookup t (thr d) = Some x -> alookup t (thr (fst (dstep d o))) = Some x).
+Proof.
+  intros I TM NC OK. destruct o; cbn [takes_mu] in TM; try discriminate; cbn [dstep].
+  - (* DMeta *) destruct (meta_op o) eqn:M; [|split; auto].
+    pose proof (meta_same_slots o (md d) M) as SS. destruct (step (md d) o) as [m b] eqn:St. cbn [fst md with_md thr] in *.
+    split; [|auto]. intros w j q H. left. now apply SS.
+  - (* DReserve *) unfold dreserve. destruct (alookup t (thr d)) eqn:T; [split; auto|].
+    destruct (reserve r loc (md d)) as [| |s1 v i|ob|] eqn:R; cbn [fst]; rewrite ?touch_md, ?touch_thr;
+      cbn [md thr with_md with_thr]; try solve [split; auto].
+    + split; [|auto]. intros w j q H. left. unfold slot_at in *. now rewrite add_known_vols in H.
+    + destruct (reserve_placed r loc (md d) s1 v i I R) as [_ [_ [-> [_ [vl [G [S Hv]]]]]]].
+      pose proof (slot_at_wr (md d) s1 v i (Some r) 1 vl G Hv) as SA. rewrite S in SA.
+      split.
+      * intros w j q H. rewrite SA in H. destruct ((w =? v)%N && (j =? i)%N) eqn:E0; [|now left].
+        apply andb_loc in E0 as [-> ->]. injection H as <-. right. exists t. cbn. now rewrite N.eqb_refl.
+      * intros t' x H. cbn. destruct (t' =? t)%N eqn:E0; [|exact H]. apply N.eqb_eq in E0; subst. congruence.
+  - (* DSyncEnd *) unfold dsync_end. repeat brk; cbn [fst]; split; auto.
+  - (* DAge *) split; auto.
+  - (* DRead *) unfold dread. repeat brk; cbn [fst]; rewrite ?touch_md, ?touch_thr; cbn [md thr with_cache]; split; auto.
+    all: cbn [is_none is_some andb] in TM; discriminate.
+  - (* DMigrate without calls *) destruct calls; [|discriminate].
+    assert (Hd : fst (dmigrate (S (length (slots_of v (md d)))) v start start [] 0 0 d) = d).
+    { cbn [dmigrate]. repeat brk; reflexivity. }
+    rewrite Hd. split; auto.
+  - (* DShrinkT *) unfold dshrink. destruct (shrink v n (md d)) as [m| |] eqn:Sh; cbn [fst]; try solve [split; auto].
+    destruct (shrink_facts v n (md d) m Sh) as [_ [_ [_ Hsub]]]. cbn [md with_md with_files thr].
+    split; [|auto]. intros w j q H. left. eapply Hsub; eauto.
+  - (* DRemoveT *) cbn in OK; subst force. unfold dremove.
+    destruct (remove_vol v false (md d)) as [m| |] eqn:R; cbn [fst]; try solve [split; auto].
+    destruct (remove_facts v (md d) m I R) as [_ [_ [_ Hsub]]]. cbn [md with_md with_files thr].
+    split; [|auto]. intros w j q H. left. eapply Hsub; eauto.
+  - (* DPrune *) unfold dprune.
+    set (f := fun r => refd (md d) r || mem r (fresh d) || in_flight r (thr d)).
+    destruct (prune_with_ok f (md d) I) as [m P]. rewrite P. cbn [dres fst md with_md thr].
+    split; [|auto]. intros w j q H. left. rewrite slot_at_pruned in H.
+    destruct (slot_at (md d) w j) as [[q'|]|]; try discriminate. destruct (f q'); [exact H|discriminate].
+  - (* DResizeCache *) split; auto.
+  - (* DCrash *) congruence.
+Qed.
+
+(** ** The invariant over the finer steps *)
+Definition xruns (x : xstate) (l : list xop) : xstate := fold_left (fun x o => fst (xstep x o)) l x.
+
+Definition lostp (x : xstate) : N -> Prop := fun q => In q (xlost x).
+
+(* while a RemoveSector holds vm.mu: before its metadata commit the sector sits where it was
+   located (or has been re-reserved by a writer meanwhile); after the commit and before the zero
+   write the released slot holds nobody's written data *)
+Definition xwin (x : xstate) : Prop :=
+  match xmu x with
+  | None => True
+  | Some (r, (v, i), RsLocated) =>
+      forall w j, slot_at (md (xd x)) w j = Some (Some r) ->
+        (w = v /\ j = i) \/ exists t, alookup t (thr (xd x)) = Some (r, w, j)
+  | Some (r, (v, i), RsCommitted) =>
+      forall q, slot_at (md (xd x)) v i = Some (Some q) -> exists t, alookup t (thr (xd x)) = Some (q, v, i)
+  | Some (_, _, RsZeroed) => True
+  end.
+
+Record xinv (x : xstate) : Prop := mk_xinv {
+  x_d : dinvE (lostp x) (xd x);
+  x_nz : forall t q w j, alookup t (thr (xd x)) = Some (q, w, j) -> q <> 0%N;
+  x_win : xwin x }.
+
+Lemma xinv_init n : xinv (xinit n).
+Proof.
+  constructor; cbn.
+  - apply dinv_init.
+  - intros t q w j H; discriminate.
+  - exact Logic.I.
+Qed.
+
+(* the steps the theorems are about: as [step_ok], but an operator's RemoveSector is allowed — as
+   one step or cut at its internal steps — provided no upload of that very sector is in flight
+   when its metadata is removed (see rs_in_flight_refuted); content 0 (zeroes) is nobody's root *)
+Definition xstep_ok (x : xstate) (o : xop) : Prop :=
+  match o with
+  | XD (DRemoveSector r) => in_flight r (thr (xd x)) = false
+  | XD (DReserve t r loc) => r <> 0%N /\ step_ok (xd x) (DReserve t r loc)
+  | XD o' => step_ok (xd x) o'
+  | XRsCommit => match xmu x with Some (r, _, RsLocated) => in_flight r (thr (xd x)) = false | _ => True end
+  | _ => True
+  end.
+
+Fixpoint xsteps_ok (x : xstate) (l : list xop) : Prop :=
+  match l with
+  | [] => True
+  | o :: t => xstep_ok x o /\ xsteps_ok (fst (xstep x o)) t
+  end.
+
+Lemma xwin_frame x d' :
+  xwin x ->
+  (forall w j q, slot_at (md d') w j = Some (Some q) ->
+     slot_at (md (xd x)) w j = Some (Some q) \/ exists t, alookup t (thr d') = Some (q, w, j)) ->
+  (forall t y, alookup t (thr (xd x)) = Some y -> alookup t (thr d') = Some y) ->
+  xwin {| xd := d'; xmu := xmu x; xlost := xlost x |}.
+Proof.
+  unfold xwin; cbn [xmu xd]. destruct (xmu x) as [[[r [v i]] [| |]]|]; auto.
+  - intros W Hs Ht w j H. destruct (Hs w j r H) as [H0|H0]; [|now right].
+    destruct (W w j H0) as [H1|[t H1]]; [now left|right; exists t; now apply Ht].
+  - intros W Hs Ht q H. destruct (Hs v i q H) as [H0|H0]; [|exact H0].
+    destruct (W q H0) as [t H1]. exists t; now apply Ht.
+Qed.
+
+(* one coarse step that is not disabled *)
+Lemma xinv_coarse x o :
+  xinv x -> xstep_ok x (XD o) -> o <> DCrash ->
+  (xmu x = None \/ takes_mu o (xd x) = false) ->
+  xinv {| xd := fst (dstep (xd x) o); xmu := xmu x;
+          xlost := match o with DRemoveSector r => if is_ok (snd (dstep (xd x) o)) then r :: xlost x else xlost x | _ => xlost x end |}.
+Proof.
+  intros [I NZ W] OK NC EN. set (d := xd x) in *.
+  assert (Hnz : forall t q w j, alookup t (thr (fst (dstep d o))) = Some (q, w, j) -> q <> 0%N).
+  { intros t q w j H. destruct (thr_step d o t (q, w, j) (d_tids d I) H) as [H0|[r [loc [-> Hr]]]]; [eauto|].
+    cbn in Hr; subst. cbn in OK. tauto. }
+  destruct (match o with DRemoveSector _ => true | _ => false end) eqn:RS.
+  - (* VolumeManager.RemoveSector as one step: vm.mu is free *)
+    destruct o; try discriminate. cbn [xstep_ok] in OK.
+    destruct EN as [EN|EN]; [|discriminate].
+    constructor; cbn [xd xmu xlost].
+    + eapply dinvE_weaken; [|apply (dinvE_remove_sector (lostp x) d r I OK)].
+      unfold lostp. intros q [Hq|[Hb ->]]; rewrite ?Hb; cbn; auto.
+      destruct (is_ok _); cbn; auto.
+    + exact Hnz.
+    + unfold xwin; cbn. now rewrite EN.
+  - assert (SO : step_ok d o).
+    { destruct o; try exact OK; try discriminate. cbn in OK. tauto. }
+    assert (EL : (match o with DRemoveSector r => if is_ok (snd (dstep d o)) then r :: xlost x else xlost x | _ => xlost x end) = xlost x).
+    { destruct o; try reflexivity; discriminate. }
+    rewrite EL. constructor; cbn [xd xmu xlost].
+    + apply dinv_step; assumption.
+    + exact Hnz.
+    + destruct EN as [EN|EN]; [unfold xwin; cbn; now rewrite EN|].
+      destruct (no_mu_frame d o (d_inv d I) EN NC SO) as [Hs Ht].
+      apply (xwin_frame x (fst (dstep d o)) W Hs Ht).
+Qed.
+
+Theorem xinv_step x o : xinv x -> xstep_ok x o -> xinv (fst (xstep x o)).
+Proof.
+  intros IX OK. destruct o as [o|r| |ok|ok|]; unfold xstep, xstep_gen.
+  - (* a step of the coarse model *)
+    destruct (match o with DCrash => true | _ => false end) eqn:CR.
+    + destruct o; try discriminate. cbn [fst]. destruct IX as [I NZ W]. constructor; cbn [xd xmu xlost].
+      * now apply dinv_crash.
+      * cbn. intros t q w j H; discriminate.
+      * exact Logic.I.
+    + assert (NC : o <> DCrash) by (intros ->; discriminate).
+      assert (Hgo : forall (EN : xmu x = None \/ takes_mu o (xd x) = false),
+                xinv (fst (let '(d', b) := dstep (xd x) o in
+                   ({| xd := d'; xmu := xmu x;
+                       xlost := match o with DRemoveSector r => if is_ok b then r :: xlost x else xlost x | _ => xlost x end |}, b)))).
+      { intros EN. pose proof (xinv_coarse x o IX OK NC EN) as H. destruct (dstep (xd x) o) as [d' b]. exact H. }
+      destruct (true && is_some (xmu x) && takes_mu o (xd x)) eqn:BL.
+      * destruct o; try discriminate; exact IX.
+      * assert (EN : xmu x = None \/ takes_mu o (xd x) = false).
+        { cbn [andb] in BL. apply Bool.andb_false_iff in BL as [BL|BL]; [left|now right].
+          destruct (xmu x); [discriminate|reflexivity]. }
+        destruct o; try discriminate; exact (Hgo EN).
+  - (* XRsLocate: vm.mu.Lock, SectorLocation *)
+    destruct (xmu x) eqn:MU; [exact IX|].
+    destruct (locate r (md (xd x))) as [[v i]|] eqn:L; cbn [fst]; [|exact IX].
+    destruct IX as [I NZ W]. constructor; cbn [xd xmu xlost].
+    + now apply dinv_touch.
+    + rewrite touch_thr. exact NZ.
+    + unfold xwin; cbn [xmu xd]. rewrite touch_md. intros w j H. left.
+      apply locate_slot in L; [|apply (d_inv _ I)].
+      destruct (slot_injective (md (xd x)) w j v i r (d_inv _ I) H L) as [-> ->]. auto.
+  - (* XRsCommit: Store.RemoveSector *)
+    destruct (xmu x) as [[[r [v i]] [| |]]|] eqn:MU; try exact IX.
+    cbn [xstep_ok] in OK. rewrite MU in OK.
+    destruct IX as [I NZ W]. pose proof (d_inv _ I) as I0.
+    destruct (remove_sector r (md (xd x))) as [m|e|] eqn:R; cbn [fst].
+    + constructor; cbn [xd xmu xlost].
+      * apply dinv_touch. eapply dinvE_weaken; [|apply (dinvE_remove_md (lostp x) (xd x) r m I OK R)].
+        unfold lostp. intros q [Hq| ->]; cbn; auto.
+      * rewrite touch_thr. exact NZ.
+      * unfold xwin; cbn [xmu xd]. rewrite touch_md, touch_thr. cbn [md thr with_md].
+        destruct (remove_sector_facts r (md (xd x)) m I0 R) as [v0 [i0 [F [_ [_ [_ SA]]]]]].
+        apply (vfind_iff (md (xd x)) r v0 i0 I0) in F.
+        unfold xwin in W. rewrite MU in W.
+        destruct (W v0 i0 F) as [[-> ->]|[t A]].
+        -- intros q H. rewrite SA, !N.eqb_refl in H. discriminate.
+        -- now rewrite (in_flight_spec r _ t v0 i0 A) in OK.
+    + constructor; cbn [xd xmu xlost]; auto; try exact Logic.I.
+    + constructor; cbn [xd xmu xlost]; auto; try exact Logic.I.
+  - (* XRsZero *)
+    destruct (xmu x) as [[[r [v i]] [| |]]|] eqn:MU; try exact IX.
+    destruct IX as [I NZ W]. unfold xwin in W. rewrite MU in W.
+    destruct (ok && is_some (vget v (vols (md (xd x))))); cbn [fst].
+    + constructor; cbn [xd xmu xlost]; [|exact NZ|exact Logic.I].
+      apply dinvE_zero; [exact I|]. intros q H. destruct (W q H) as [t A]. split; [now exists t|eapply NZ; eauto].
+    + constructor; cbn [xd xmu xlost]; auto; try exact Logic.I.
+  - (* XRsEnd *)
+    destruct (xmu x) as [[[r [v i]] [| |]]|] eqn:MU; try exact IX.
+    destruct IX as [I NZ W]. destruct ok; cbn [fst]; constructor; cbn [xd xmu xlost]; auto; try exact Logic.I.
+    now apply dinvE_rs_end.
+  - (* XRsAbort *)
+    destruct (xmu x) as [[[r [v i]] [| |]]|] eqn:MU; try exact IX.
+    destruct IX as [I NZ W]. cbn [fst]; constructor; cbn [xd xmu xlost]; auto; try exact Logic.I.
+Qed.
+
+Theorem xinv_runs l : forall x, xinv x -> xsteps_ok x l -> xinv (xruns x l).
+Proof.
+  induction l as [|o t IH]; intros x I OK; [exact I|]. destruct OK as [O1 O2].
+  cbn. apply IH; [now apply xinv_step|exact O2].
+Qed.
+
+(** ** The C02 statements over the finer steps *)
+Theorem readable_xruns size l r :
+  xsteps_ok (xinit size) l ->
+  let x := xruns (xinit size) l in
+  refd (md (xd x)) r = true -> ~ In r (xlost x) ->
+  read_result (xd x) r = Some r /\ read_result (dcrash (xd x)) r = Some r.
+Proof.
+  intros OK x H HE. pose proof (xinv_runs l (xinit size) (xinv_init size) OK) as [I _ _]. fold x in I.
+  split; [eapply referenced_readableE|eapply referenced_readable_after_crashE]; eauto.
+Qed.
+
+(* the target of a step of an explicit deletion *)
+Definition rs_target (x : xstate) (o : xop) : option N :=
+  match o with
+  | XD (DRemoveSector r) => Some r
+  | XRsLocate r => Some r
+  | XRsCommit | XRsZero _ | XRsEnd _ | XRsAbort => match xmu x with Some (r, _, _) => Some r | None => None end
+  | _ => None
+  end.
+
+Lemma xlost_step x o q : In q (xlost (fst (xstep x o))) -> In q (xlost x) \/ rs_target x o = Some q.
+Proof.
+  unfold xstep, xstep_gen. destruct o as [o|r| |ok|ok|]; cbn [rs_target].
+  - destruct o; try (destruct (true && is_some (xmu x) && _); [now left|]);
+      try (destruct (dstep (xd x) _) as [d' b]; cbn [fst xlost]; now left); try (cbn; now left).
+    destruct (dstep (xd x) (DRemoveSector r)) as [d' b]. cbn [fst xlost]. destruct (is_ok b); [|now left].
+    intros [<-|H]; [now right|now left].
+  - destruct (xmu x); [now left|]. destruct (locate r (md (xd x))); now left.
+  - destruct (xmu x) as [[[r [v i]] [| |]]|]; try (now left).
+    destruct (remove_sector r (md (xd x))); cbn [fst xlost]; try (now left). intros [<-|H]; [now right|now left].
+  - destruct (xmu x) as [[[r [v i]] [| |]]|]; try (now left). destruct (ok && _); now left.
+  - destruct (xmu x) as [[[r [v i]] [| |]]|]; try (now left). destruct ok; now left.
+  - destruct (xmu x) as [[[r [v i]] [| |]]|]; now left.
+Qed.
+
+(* an explicit deletion of r, as one step or at any of its internal steps, in any reachable state
+   and whatever ran in between: every other referenced sector (that was not deleted explicitly
+   itself) reads back its own bytes afterwards, now and after a crash *)
+Theorem remove_sector_only_target size l o r q :
+  xsteps_ok (xinit size) (l ++ [o]) ->
+  rs_target (xruns (xinit size) l) o = Some r -> q <> r ->
+  let x := xruns (xinit size) l in
+  let x' := fst (xstep x o) in
+  refd (md (xd x')) q = true -> ~ In q (xlost x) ->
+  read_result (xd x') q = Some q /\ read_result (dcrash (xd x')) q = Some q.
+Proof.
+  intros OK T Hq x x' H HL.
+  assert (E : x' = xruns (xinit size) (l ++ [o])).
+  { unfold x', x, xruns. now rewrite fold_left_app. }
+  rewrite E in *. apply (readable_xruns size (l ++ [o]) q OK H).
+  rewrite <- E. intros HI. apply xlost_step in HI as [HI|HI]; [tauto|]. fold x in T. congruence.
+Qed.
+
+(* the four internal steps in a row are the one-step RemoveSector of DataModel.v *)
+Lemma rs_steps_are_remove_sector x r :
+  xmu x = None ->
+  (locate r (md (xd x)) = None \/ exists m, remove_sector r (md (xd x)) = Ok m) ->
+  exists lost, xruns x [XRsLocate r; XRsCommit; XRsZero true; XRsEnd true] =
+               {| xd := fst (dstep (xd x) (DRemoveSector r)); xmu := None; xlost := lost |}.
+Proof.
+  destruct x as [d mu lost]. cbn [xmu xd]. intros -> HR. unfold xruns; cbn [fold_left].
+  cbn [dstep]. unfold dremove_sector.
+  unfold xstep at 4. cbn [xstep_gen xmu xd xlost].
+  destruct (locate r (md d)) as [[v i]|] eqn:L; cbn [fst].
+  2:{ unfold xstep. cbn [xstep_gen xmu xd xlost fst]. eauto. }
+  unfold xstep at 3. cbn [xstep_gen xmu xd xlost]. rewrite touch_md.
+  destruct HR as [HR|[m R]]; [congruence|]. rewrite R. cbn [fst].
+  unfold xstep at 2. cbn [xstep_gen xmu xd xlost]. rewrite touch_md. cbn [md with_md].
+  assert (G : is_some (vget v (vols m)) = true).
+  { unfold locate in L. destruct (mem r (known (md d))) eqn:K; [|discriminate].
+    unfold remove_sector in R. rewrite K in R. cbn [negb] in R. rewrite L in R.
+    destruct (vol_usage v (-1) (set_slot v i None (md d))) as [s1| |] eqn:U; cbn [bind] in R; try discriminate.
+    destruct (stat_inc (mLost (mets s1)) 1); cbn [bind] in R; try discriminate. injection R as <-. cbn [vols with_mets].
+    apply usage_set_slot in U as [vl [G [_ [Hv _]]]]. rewrite Hv.
+    rewrite (vget_vupd_same v _ _ vl) by (auto; reflexivity). reflexivity. }
+  rewrite G. cbn [andb fst]. unfold xstep. cbn [xstep_gen xmu xd xlost fst]. eexists.
+  match goal with |- {| xd := ?a; xmu := _; xlost := _ |} = {| xd := ?b; xmu := _; xlost := _ |} =>
+    replace a with b; [reflexivity|] end.
+  unfold touch. cbn [fresh with_md with_files with_cache sync_vol].
+  destruct (mem r (fresh d)) eqn:F; cbn [fresh with_md with_fresh with_files with_cache sync_vol mem];
+    rewrite ?F, ?N.eqb_refl; cbn [orb]; reflexivity.
+Qed.
+
+(** ** Why RemoveSector keeps vm.mu from its metadata commit to its zero write — and a schedule
+   on which the code as it is loses a sector that was not the target *)
+Definition xruns_gen (lock : bool) (x : xstate) (l : list xop) : xstate :=
+  fold_left (fun x o => fst (xstep_gen lock x o)) l x.
+
+(* the coarse steps of a run with what they answered (for [disciplined]) *)
+Fixpoint xdtrace (lock : bool) (x : xstate) (l : list xop) : list (dop * dobs) :=
+  match l with
+  | [] => []
+  | o :: t =>
+      let '(x', b) := xstep_gen lock x o in
+      match o with XD o' => (o', b) :: xdtrace lock x' t | _ => xdtrace lock x' t end
+  end.
+
+(* the decidable side conditions of [xstep_ok] *)
+Definition xguard (x : xstate) (o : xop) : bool :=
+  match o with
+  | XD (DRemoveSector r) => negb (in_flight r (thr (xd x)))
+  | XD (DReserve _ r _) => negb (r =? 0)%N
+  | XD (DRemoveT _ force) => negb force
+  | XRsCommit => match xmu x with Some (r, _, RsLocated) => negb (in_flight r (thr (xd x))) | _ => true end
+  | _ => true
+  end.
+
+Fixpoint xguards (lock : bool) (x : xstate) (l : list xop) : bool :=
+  match l with
+  | [] => true
+  | o :: t => xguard x o && xguards lock (fst (xstep_gen lock x o)) t
+  end.
+
+Definition xcalm (o : xop) : bool :=
+  match o with XD DCrash | XD (DRemoveT _ true) => false | _ => true end.
+
+(* without the critical section: the writer that was handed the released slot writes, is
+   acknowledged, synced and referenced — and is then zeroed *)
+Definition witness_no_lock : list xop :=
+  [XD (DMeta (AddVol 1 false)); XD (DMeta (SetAvail 1 true)); XD (DMeta (Grow 1 1));
+   XD (DReserve 1 7 (Some (1, 0))); XD (DWrite 1 true); XD DSync; XD (DMeta (AddTemp [(7, 100)]));
+   XRsLocate 7; XRsCommit;
+   XD (DReserve 2 8 (Some (1, 0))); XD (DWrite 2 true); XD DSync; XD (DMeta (AddTemp [(8, 100)]));
+   XRsZero true; XRsEnd true]%N.
+
+Lemma rs_without_lock_refuted :
+  exists size l q,
+    forallb xcalm l = true /\ xguards false (xinit size) l = true /\
+    disciplined (xdtrace false (xinit size) l) = true /\
+    let x := xruns_gen false (xinit size) l in
+    refd (md (xd x)) q = true /\ ~ In q (xlost x) /\ read_result (xd x) q <> Some q.
+Proof.
+  exists 0%N, witness_no_lock, 8%N. vm_compute. repeat split; try reflexivity.
+  - intros [H|[]]; discriminate.
+  - discriminate.
+Qed.
+
+(* with it, the same schedule: the writer's data write is not enabled inside the window, it
+   happens after the zeroes *)
+Lemma rs_with_lock_blocks_writer :
+  let x := xruns (xinit 0) (firstn 10 witness_no_lock) in
+  snd (xstep x (XD (DWrite 2 true))) = ODBad /\
+  read_result (xd (xruns (xinit 0) (firstn 10 witness_no_lock ++ [XRsZero true; XRsEnd true; XD (DWrite 2 true)]))) 8 = Some 8%N.
+Proof. vm_compute. split; reflexivity. Qed.
+
+(* the code as it is: an upload of the very sector that is being deleted is in flight (slot
+   reserved, data not written yet).  RemoveSector releases that slot, it is handed to another
+   sector, and the first writer then writes into it. *)
+Definition witness_in_flight_target : list xop :=
+  [XD (DMeta (AddVol 1 false)); XD (DMeta (SetAvail 1 true)); XD (DMeta (Grow 1 1));
+   XD (DReserve 1 7 (Some (1, 0)));
+   XD (DRemoveSector 7);
+   XD (DReserve 2 8 (Some (1, 0))); XD (DWrite 2 true); XD DSync; XD (DMeta (AddTemp [(8, 100)]));
+   XD (DWrite 1 true)]%N.
+
+Lemma rs_in_flight_refuted :
+  exists size l q,
+    forallb xcalm l = true /\ disciplined (xdtrace true (xinit size) l) = true /\
+    let x := xruns (xinit size) l in
+    refd (md (xd x)) q = true /\ ~ In q (xlost x) /\ read_result (xd x) q <> Some q.
+Proof.
+  exists 0%N, witness_in_flight_target, 8%N. vm_compute. repeat split; try reflexivity.
+  - intros [H|[]]; discriminate.
+  - discriminate.
+Qed.
+
+(* non-vacuity: a run at the finer granularity that meets the hypotheses — a RemoveSector parked
+   after its metadata commit while a writer of another sector is handed the released slot *)
+Definition xdemo : list xop :=
+  [XD (DMeta (AddVol 1 false)); XD (DMeta (SetAvail 1 true)); XD (DMeta (Grow 1 2));
+   XD (DReserve 1 7 (Some (1, 0))); XD (DWrite 1 true);
+   XD (DReserve 2 9 (Some (1, 1))); XD (DWrite 2 true); XD DSync; XD (DMeta (AddTemp [(7, 100); (9, 100)]));
+   XRsLocate 7; XRsCommit;
+   XD (DReserve 3 8 (Some (1, 0))); XD (DWrite 3 true);
+   XRsZero true; XRsEnd true; XD (DWrite 3 true); XD DSync; XD (DMeta (AddTemp [(8, 100)])); XD DCrash]%N.
+
+Lemma xdemo_ok : xsteps_ok (xinit 0) xdemo.
+Proof.
+  unfold xdemo. cbn [xsteps_ok]. repeat split.
+  all: try (intros r H; vm_compute in H; discriminate).
+  all: try (vm_compute; discriminate).
+  all: try reflexivity.
+  all: try (intros r H; left; vm_compute in H |- *; exact H).
+  - intros r H. right. vm_compute in H.
+    assert (r = 7%N \/ r = 9%N).
+    { destruct (7 =? r)%N eqn:E7; [left; now apply N.eqb_eq in E7|].
+      destruct (9 =? r)%N eqn:E9; [right; now apply N.eqb_eq in E9|].
+      vm_compute in H. destruct r as [|p]; try discriminate.
+      repeat (destruct p as [p|p|]; try discriminate). }
+    destruct H0 as [->| ->]; [exists 1%N, 0%N|exists 1%N, 1%N]; vm_compute; auto.
+  - intros r H. vm_compute in H.
+    assert (r = 7%N \/ r = 9%N \/ r = 8%N).
+    { destruct (7 =? r)%N eqn:E7; [left; now apply N.eqb_eq in E7|].
+      destruct (9 =? r)%N eqn:E9; [right; left; now apply N.eqb_eq in E9|].
+      destruct (8 =? r)%N eqn:E8; [right; right; now apply N.eqb_eq in E8|].
+      vm_compute in H. destruct r as [|p]; try discriminate.
+      repeat (destruct p as [p|p|]; try discriminate). }
+    destruct H0 as [->|[->| ->]]; [left; reflexivity|left; reflexivity|right; exists 1%N, 0%N; vm_compute; auto].
+Qed.
+
+Lemma xdemo_nonvacuous :
+  xsteps_ok (xinit 0) xdemo /\
+  let x := xruns (xinit 0) xdemo in
+  xlost x = [7%N] /\ refd (md (xd x)) 8 = true /\ refd (md (xd x)) 9 = true /\
+  read_result (xd x) 8 = Some 8%N /\ read_result (xd x) 9 = Some 9%N /\ read_result (xd x) 7 = None.
+Proof. split; [exact xdemo_ok|]. vm_compute. repeat split; reflexivity. Qed.
